@@ -7,6 +7,7 @@ mod libgen;
 mod rng;
 mod sx;
 
+mod c05;
 mod c06;
 mod c08;
 mod c15;
@@ -96,6 +97,7 @@ fn main() {
     // panics inside the code under test are caught per case; silence the default hook's noise
     std::panic::set_hook(Box::new(|_| {}));
     match group.as_str() {
+        "c05" => c05::run(&args, &mut out),
         "c06" => c06::run(&args, &mut out),
         "c08" => c08::run(&args, &mut out),
         "c10" => c08::run_c10(&args, &mut out),
